@@ -162,7 +162,7 @@ def main(argv=None) -> int:
             real[sig] = rec
 
     required = list(getattr(_MOD, "REQUIRED", []))
-    missing = [r for r in required if not total.outcomes.get(r)]
+    missing = [] if args.only else [r for r in required if not total.outcomes.get(r)]
     level = getattr(_MOD, "LEVEL", "exploration")
     describe = getattr(_MOD, "describe", lambda t, s: {})(_TIER, seed)
     exhaustive = not total.caps and not errors and not args.only
